@@ -106,6 +106,51 @@ def check_submit_on_ok(ctx, fx, rule, entry, entries, any_path=False):
         ctx.ok(rule, "ok-means-submitted:" + entry, f["loc"], {"words": [" ".join(w) for w in nfa.words(n, limit=3)]})
 
 
+class ForwardAlways(nfa.Spec):
+    """a forwarding entry point completes only after the operation it forwards to has completed, and answers Ok only
+    when that operation did (or hands its result back unchanged)"""
+    init = ("none",)
+
+    def step(self, st, label):
+        label = loops.norm(label)
+        ev = label.split("@")[0]
+        src = label.split("@")[1] if "@" in label else ""
+        ph = st[0]
+        if ev in ("unwind", "cancel") or ev.startswith("pend:"):
+            return st
+        if ev == "call:fwd":
+            if ph != "none":
+                return nfa.Err("forwards a second time on one path")
+            return ("called",)
+        if ev == "done:fwd" and ph == "called":
+            return ("done",)
+        if ev == "sw:Res::Ok" and src == "fwd" and ph == "done":
+            return ("accepted",)
+        if ev == "sw:Res::Err" and src == "fwd" and ph == "done":
+            return ("refused",)
+        if ev == "retval:Ok" and ph != "accepted":
+            return nfa.Err("answers Ok of its own although the forwarded operation did not complete with Ok on this path (phase %s)" % ph)
+        if ev == "retval:Err" and ph in ("none", "called"):
+            return nfa.Err("fails of its own before the forwarded operation was tried (phase %s)" % ph)
+        if ev == "ret" and ph in ("none", "called"):
+            return nfa.Err("completes without the forwarded operation having completed (phase %s)" % ph)
+        return st
+
+
+def check_forward_always(ctx, fx, rule, inst, f, is_target, depth=1):
+    """every normal path of `f` (an async body) goes through the awaited call matched by is_target"""
+    b = ctx.body(fx, f)
+    A = nfa.Alphabet(calls=[("fwd", is_target)], adts={"core::ops::control_flow::ControlFlow": "Res", "core::result::Result": "Res"}, retval=True)
+    n = nfa.build(b, A, fx, depth=depth)
+    viols, ps = nfa.check(n, ForwardAlways())
+    ctx.count_nfa(n.stats(), ps)
+    for v in viols:
+        ctx.viol(rule, inst, v["msg"], fn=f["def"], site=f["loc"], trace=v["trace"])
+    if not viols:
+        ctx.ok(rule, inst, f["loc"], {"words": [" ".join(w) for w in nfa.words(n, limit=3)]})
+    return not viols
+
+
 def first_await_or_end(b):
     """blocks reachable from entry without crossing a Yield (i.e. executed before the first suspension)"""
     seen = set()
